@@ -46,6 +46,7 @@ import shutil
 import tempfile
 
 from harness import core, tables_io
+from harness import defstreams as DS
 from harness import coder_io as C
 from harness import coderprops as P
 
@@ -1252,12 +1253,18 @@ def run(ctx):
             for what, sig in r['viol']:
                 ctx.violation('stream %d: %s' % (r['summary']['index'], what), {'stream': r['desc'], 'why': what}, signature=sig)
     reset_cache()
+    # in-stream definitions under filters (F25): a rejected definition message still governs what follows
+    DS.run(ctx, ctx.rng('defstreams'), 4 if ctx.tier == 'quick' else 40)
+    reset_cache()
 
 
 def replay(ctx, path):
     with open(path) as f:
         body = json.load(f)
     rep = body['replay']
+    if rep.get('defstream'):
+        DS.replay(ctx, rep)
+        return
     drv = ctx.driver
     if 'file' in rep:
         n, viol = prepbufr_check(drv)
